@@ -229,23 +229,23 @@ type Recorder struct {
 
 var _ events.DataEventReceiver = (*Recorder)(nil)
 
-func (r *Recorder) add(e Event)                 { r.Log = append(r.Log, e) }
-func (r *Recorder) Reset()                      { r.Log = nil }
-func (r *Recorder) OnBeginDocument()            { r.add(Event{K: BD}) }
-func (r *Recorder) OnEndDocument()              { r.add(Event{K: ED}) }
-func (r *Recorder) OnVersion(v uint64)          { r.add(Event{K: VER, U: v}) }
-func (r *Recorder) OnPadding()                  { r.add(Event{K: PAD}) }
-func (r *Recorder) OnComment(m bool, c []byte)  { r.add(Event{K: COM, Flag: m, B: cpBytes(c)}) }
-func (r *Recorder) OnNull()                     { r.add(Event{K: NULL}) }
-func (r *Recorder) OnBoolean(v bool)            { r.add(Event{K: BOOL, Flag: v}) }
-func (r *Recorder) OnTrue()                     { r.add(Event{K: TRUE}) }
-func (r *Recorder) OnFalse()                    { r.add(Event{K: FALSE}) }
-func (r *Recorder) OnPositiveInt(v uint64)      { r.add(Event{K: PINT, U: v}) }
-func (r *Recorder) OnNegativeInt(v uint64)      { r.add(Event{K: NINT, U: v}) }
-func (r *Recorder) OnInt(v int64)               { r.add(Event{K: INT, I: v}) }
-func (r *Recorder) OnBigInt(v *big.Int)         { r.add(Event{K: BINT, BI: cpBigInt(v)}) }
-func (r *Recorder) OnFloat(v float64)           { r.add(Event{K: FLOAT, F: v}) }
-func (r *Recorder) OnBigFloat(v *big.Float)     { r.add(Event{K: BFLOAT, BF: cpBigFloat(v)}) }
+func (r *Recorder) add(e Event)                { r.Log = append(r.Log, e) }
+func (r *Recorder) Reset()                     { r.Log = nil }
+func (r *Recorder) OnBeginDocument()           { r.add(Event{K: BD}) }
+func (r *Recorder) OnEndDocument()             { r.add(Event{K: ED}) }
+func (r *Recorder) OnVersion(v uint64)         { r.add(Event{K: VER, U: v}) }
+func (r *Recorder) OnPadding()                 { r.add(Event{K: PAD}) }
+func (r *Recorder) OnComment(m bool, c []byte) { r.add(Event{K: COM, Flag: m, B: cpBytes(c)}) }
+func (r *Recorder) OnNull()                    { r.add(Event{K: NULL}) }
+func (r *Recorder) OnBoolean(v bool)           { r.add(Event{K: BOOL, Flag: v}) }
+func (r *Recorder) OnTrue()                    { r.add(Event{K: TRUE}) }
+func (r *Recorder) OnFalse()                   { r.add(Event{K: FALSE}) }
+func (r *Recorder) OnPositiveInt(v uint64)     { r.add(Event{K: PINT, U: v}) }
+func (r *Recorder) OnNegativeInt(v uint64)     { r.add(Event{K: NINT, U: v}) }
+func (r *Recorder) OnInt(v int64)              { r.add(Event{K: INT, I: v}) }
+func (r *Recorder) OnBigInt(v *big.Int)        { r.add(Event{K: BINT, BI: cpBigInt(v)}) }
+func (r *Recorder) OnFloat(v float64)          { r.add(Event{K: FLOAT, F: v}) }
+func (r *Recorder) OnBigFloat(v *big.Float)    { r.add(Event{K: BFLOAT, BF: cpBigFloat(v)}) }
 func (r *Recorder) OnDecimalFloat(v compact_float.DFloat) {
 	r.add(Event{K: DFLOAT, DF: v})
 }
@@ -272,9 +272,11 @@ func (r *Recorder) OnMedia(mt string, d []byte) {
 	r.add(Event{K: MEDIA, S: strings.Clone(mt), B: cpBytes(d)})
 }
 func (r *Recorder) OnCustomBinary(ct uint64, d []byte) { r.add(Event{K: CUSTB, U: ct, B: cpBytes(d)}) }
-func (r *Recorder) OnCustomText(ct uint64, d string)   { r.add(Event{K: CUSTT, U: ct, S: strings.Clone(d)}) }
-func (r *Recorder) OnArrayBegin(t events.ArrayType)    { r.add(Event{K: ABEGIN, AT: t}) }
-func (r *Recorder) OnMediaBegin(mt string)             { r.add(Event{K: MBEGIN, S: strings.Clone(mt)}) }
+func (r *Recorder) OnCustomText(ct uint64, d string) {
+	r.add(Event{K: CUSTT, U: ct, S: strings.Clone(d)})
+}
+func (r *Recorder) OnArrayBegin(t events.ArrayType) { r.add(Event{K: ABEGIN, AT: t}) }
+func (r *Recorder) OnMediaBegin(mt string)          { r.add(Event{K: MBEGIN, S: strings.Clone(mt)}) }
 func (r *Recorder) OnCustomBegin(t events.ArrayType, ct uint64) {
 	r.add(Event{K: CBEGIN, AT: t, U: ct})
 }
